@@ -17,9 +17,9 @@ RULE = ("document pairs of every type x type-selection grid {none, --X-TYPE, --X
         "suggests, or an alias pair is compared, and the documents differ; distinct = distinct argv + documents")
 ASSUMPTIONS = ["the library composition mirrors the documented public API; it is validated byte-for-byte against main() on the plain cases",
                "stderr is not compared"]
-MINIMUMS = {"quick": {"file_on_standard_input:first": 100, "file_on_standard_input:second": 100, "cli_on_a_terminal": 600, "cli_vs_library": 3000, "alias_pairs": 1500, "explicit_type_overrides_name:first": 300,
+MINIMUMS = {"quick": {"colour_flag:--no-color:terminal": 100, "colour_flag:--color:not-a-terminal": 200, "file_on_standard_input:first": 100, "file_on_standard_input:second": 100, "cli_on_a_terminal": 600, "cli_vs_library": 3000, "alias_pairs": 1500, "explicit_type_overrides_name:first": 300,
                       "explicit_type_overrides_name:second": 300},
-            "thorough": {"file_on_standard_input:first": 2000, "file_on_standard_input:second": 2000, "cli_on_a_terminal": 12000, "cli_vs_library": 60000, "alias_pairs": 30000, "explicit_type_overrides_name:first": 6000,
+            "thorough": {"colour_flag:--no-color:terminal": 2000, "colour_flag:--color:not-a-terminal": 4000, "file_on_standard_input:first": 2000, "file_on_standard_input:second": 2000, "cli_on_a_terminal": 12000, "cli_vs_library": 60000, "alias_pairs": 30000, "explicit_type_overrides_name:first": 6000,
                          "explicit_type_overrides_name:second": 6000}}
 SELECT = ["none", "flag", "mime"]
 
@@ -50,7 +50,9 @@ def gen_cases(spec, ctx):
                 ea = formats.EXT[ta] if sa == "none" else r.choice([formats.EXT[ta], ".dat", _misleading(r, ta)])
                 eb = formats.EXT[tb] if sb == "none" else r.choice([formats.EXT[tb], ".dat", _misleading(r, tb)])
                 yield {"kind": "grid", "ta": ta, "tb": tb, "a": a, "b": b, "sa": sa, "sb": sb, "ea": ea, "eb": eb,
-                       "ds": r.choice(gen.DS), "le": r.choice(gen.LE), "mode": r.choice([[], [], ["-e"], ["-d"], ["-j"]])}
+                       "ds": r.choice(gen.DS), "le": r.choice(gen.LE), "mode": r.choice([[], [], ["-e"], ["-d"], ["-j"]]),
+                       # colour: left to the default (on exactly when stdout is a terminal), forced on, forced off
+                       "color": r.choice([None, None, "--color", "--no-color"])}
         return
     for _ in range(spec["n"]):
         t = r.choice(formats.TYPES)
@@ -162,14 +164,18 @@ def check(case, ctx):
                     stdin = fh.read()
                 if ctx is not None:
                     ctx.count("file_on_standard_input:" + via_stdin)
-            argv = ([] if status_on else ["--no-status"]) + sel_args("from", case["sa"], case["ta"]) \
+            colour = case.get("color")
+            argv = ([] if status_on else ["--no-status"]) + ([colour] if colour else []) + sel_args("from", case["sa"], case["ta"]) \
                 + sel_args("to", case["sb"], case["tb"]) + mode + cli_opts(case) \
                 + ["-" if via_stdin == "first" else pa, "-" if via_stdin == "second" else pb]
             res = monitors.run_main(argv, real_files=status_on, tty=tty, stdin=stdin)
             if ctx is not None and status_on:
                 ctx.count("cli_on_a_terminal" if tty else "cli_with_status_output_and_real_fds")
             try:
-                lib = library(case, pa, pb, mode if mode != ["-j"] else [], join=join, color=True if tty else None)
+                lib_colour = {"--color": True, "--no-color": False}.get(colour, True if tty else None)
+                if ctx is not None and colour:
+                    ctx.count(f"colour_flag:{colour}:{'terminal' if tty else 'not-a-terminal'}")
+                lib = library(case, pa, pb, mode if mode != ["-j"] else [], join=join, color=lib_colour)
                 lib_exc = None
             except Exception as ex:  # noqa
                 lib, lib_exc = None, ex
